@@ -372,7 +372,7 @@ func (fr *Frame) frameCheck(fc *FuncContract, r retRec, where string, ord int) {
 		keys[k] = true
 	}
 	for _, k := range sortedKeys(keys) {
-		if strings.HasPrefix(k, "Armed$") || strings.HasPrefix(k, "Visited$") || k == "Alloc" {
+		if strings.HasPrefix(k, "Armed$") || strings.HasPrefix(k, "Visited$") || strings.HasPrefix(k, "Released$") || k == "Alloc" {
 			continue
 		}
 		final := ex.get(r.st, k)
